@@ -499,6 +499,75 @@ func (c *Ctx) peekHelperShape(f *ssa.Function) string {
 				okGuard = true
 			}
 			if !okGuard {
+				// the -1 return is shared with the paths that come out of the loop: judge the tests in front of the loop
+				// one of whose sides leads here without entering the loop while the other goes on to it
+				reachAvoid := func(from, to *ssa.BasicBlock) bool {
+					seen := map[*ssa.BasicBlock]bool{}
+					var walk func(x *ssa.BasicBlock) bool
+					walk = func(x *ssa.BasicBlock) bool {
+						if x == to {
+							return true
+						}
+						if x == h || seen[x] {
+							return false
+						}
+						seen[x] = true
+						for _, s := range x.Succs {
+							if walk(s) {
+								return true
+							}
+						}
+						return false
+					}
+					return walk(from)
+				}
+				reachLoop := func(from *ssa.BasicBlock) bool {
+					seen := map[*ssa.BasicBlock]bool{}
+					var walk func(x *ssa.BasicBlock) bool
+					walk = func(x *ssa.BasicBlock) bool {
+						if x == h {
+							return true
+						}
+						if seen[x] {
+							return false
+						}
+						seen[x] = true
+						for _, s := range x.Succs {
+							if walk(s) {
+								return true
+							}
+						}
+						return false
+					}
+					return walk(from)
+				}
+				nguards := 0
+				for _, id := range f.Blocks {
+					if id == h || h.Dominates(id) || len(id.Succs) != 2 {
+						continue
+					}
+					iff, isIf := id.Instrs[len(id.Instrs)-1].(*ssa.If)
+					if !isIf {
+						continue
+					}
+					for k := 0; k < 2; k++ {
+						if !(reachAvoid(id.Succs[k], b) && !reachLoop(id.Succs[k]) && reachLoop(id.Succs[1-k])) {
+							continue
+						}
+						D, ok := c.geZero(iff.Cond, k == 0, nParam)
+						if !ok {
+							return "the early bail-out is not a linear comparison of position, end and n: " + describeExpr(iff.Cond)
+						}
+						a, kk := D.coef["n"], D.k
+						if D.coef["pos"] != 1 || D.coef["end"] != -1 || a < 0 || a > 1 || kk > 0 {
+							return fmt.Sprintf("the early bail-out fires when end - pos <= %d*n%+d, i.e. also when n+1 characters do remain: the last character(s) of the text are never matched", a, kk)
+						}
+						nguards++
+					}
+				}
+				okGuard = nguards > 0
+			}
+			if !okGuard {
 				return "a -1 return before the loop is not controlled by a test of the remaining length"
 			}
 			continue
